@@ -37,6 +37,11 @@ pub fn enum_rename(_s: u64) -> Vec<String> {
         SComplex(vec![atom("f"), empty(), mk_list(&[v0("$X")], Some(v0("$Y")))]),
         SFunction { name: "add".into(), terms: vec![v0("$X"), SInteger(1), v0("$X")] },
         atom("a"), v0("$X"), Anonymous,
+        // clauses that were renamed before (non-zero ids): renamed again in the middle of a search
+        var(3, "$X"),
+        SComplex(vec![atom("f"), var(1, "$X"), var(2, "$Y"), var(1, "$X")]),
+        mk_list(&[var(4, "$H")], Some(var(5, "$T"))),
+        SFunction { name: "add".into(), terms: vec![var(2, "$X"), SInteger(1)] },
     ];
     terms.iter().map(|t| format!("{}", ser(t))).collect()
 }
@@ -65,6 +70,13 @@ pub fn check_rename(case: &str) -> Result<(), String> {
     let mut vs2 = vec![];
     collect_vars(&r2, &mut vs2);
     for (_, id2) in &vs2 { if ids.contains(id2) { return Err("second renaming reused an id".into()); } }
+    // renaming the renamed term (a clause used again later in the search)
+    let mut m3: VarMap = HashMap::new();
+    let r3 = r.clone().recreate_variables(&mut m3);
+    if strip_ids(&r3) != strip_ids(&t) { return Err(format!("shape changed on re-renaming: {} -> {}", ser(&r), ser(&r3))); }
+    let mut vs3 = vec![];
+    collect_vars(&r3, &mut vs3);
+    for (n, id3) in &vs3 { if ids.contains(id3) { return Err(format!("re-renaming kept id {} of {}", id3, n)); } }
     if let SLinkedList{..} = r { if !wf_list(&r) { return Err(format!("renamed list is not well formed: {}", ser(&r))); } }
     Ok(())
 }
